@@ -141,8 +141,11 @@ func (g *gen) run() {
 		if g.slashVals && r.Chance(4) {
 			// the staking module slashes a validator (double sign 5 %, downtime 0.01 %, or something drastic)
 			frac := []string{"50000000000000000", "100000000000000", "500000000000000000", "10000000000000000", "333333333333333333"}[r.Intn(5)]
-			g.do(Op{K: "slashval", M: m, V: r.Intn(3), Amt: frac})
-			g.run_.rep.Count("validator-slashed-by-staking")
+			// (not below 1000 FX: a validator with no power leaves the bonded set, which the model does not cover)
+			if v := r.Intn(3); g.view(m).Vals[v][1].Cmp(bigOf(fx(2000))) >= 0 {
+				g.do(Op{K: "slashval", M: m, V: v, Amt: frac})
+				g.run_.rep.Count("validator-slashed-by-staking")
+			}
 		}
 		switch k := r.Intn(100); {
 		case k < 8:
